@@ -458,7 +458,12 @@ class TrioWorld(WorldBase):
             raise
         except BaseException as e:
             if not self.finished:
-                self.serve_result = f"exc:{type(e).__name__}:{e}"
+                name = type(e).__name__
+                if isinstance(e, BaseExceptionGroup):  # name the leaves: the group itself says nothing
+                    def leaves(g: BaseException) -> list:
+                        return [x for sub in g.exceptions for x in leaves(sub)] if isinstance(g, BaseExceptionGroup) else [type(g).__name__]
+                    name += "[" + ",".join(sorted(set(leaves(e)))) + "]"
+                self.serve_result = f"exc:{name}:{e}"
         finally:
             if not self.finished:
                 self.serve_done_at = self.now()
